@@ -593,7 +593,17 @@ def macont_agent(algo: str, bi: int, bj: int, act: str = "Tanh"):
     return cached((algo, "macont", bi, bj, act), make)
 
 
-def _ma_infos(agent, rows, single, key_mask, key_env, discrete):
+def rawmacont_agent(algo: str, bi: int, bj: int):
+    """MADDPG / MATD3 whose actors are stubs (outputs not rescaled into the bounds)"""
+    def make():
+        a = mk_agent(algo, "vector", [box(*BOUNDS[bi]), box(*BOUNDS[bi]), box(*BOUNDS[bj])])
+        for i in range(len(a.actors)):
+            a.actors[i] = Table()
+        return a
+    return cached((algo, "rawmacont", bi, bj), make)
+
+
+def _ma_infos(agent, rows, single, key_mask, key_env, discrete, extra_key=False):
     """build the `infos` dict the environment would return"""
     infos = {}
     any_env = any(r[aid].get("env") is not None for r in rows for aid in agent.agent_ids)
@@ -617,6 +627,8 @@ def _ma_infos(agent, rows, single, key_mask, key_env, discrete):
                     info[key_env] = None if es[0] is None else full[0]
                 else:
                     info[key_env] = full
+        if extra_key:
+            info["step_count"] = 3          # an unrelated key, as real environments send
         infos[aid] = info
     return infos
 
@@ -630,13 +642,15 @@ def run_madisc(case):
     dims = {aid: (A1 if aid.startswith("other") else A0) for aid in ag.agent_ids}
     for aid, actor in zip(ag.agent_ids, ag.actors):
         actor.head_net.table = torch.tensor([r[aid]["p"] for r in rows], dtype=torch.float32)
-    infos = _ma_infos(ag, rows, single, "action_mask", "env_defined_actions", True)
+    infos = _ma_infos(ag, rows, single, "action_mask", "env_defined_actions", True, bool(case.get("extra_key")))
     obs = sample_obs(ag, algo, B, single, case.get("seed", 0))
     inject = {i: case["noise"][aid] for i, aid in enumerate(ag.agent_ids)} if case.get("noise") else {}
     seed_all(case.get("seed", 0))
     with NoiseTap(ag, inject) as tap:
         cont, disc = ag.get_action(obs, training=tr, infos=infos)
     problems, tags, impl, ops = [], [f"madisc-{algo}"], [], []
+    nm = sum(1 for aid in ag.agent_ids if rows[0][aid].get("m") is not None)
+    tags.append("masks-all" if nm == 3 else "masks-none" if nm == 0 else "masks-partial")
     noise = {aid: (list(tap.rec[i]) if i in tap.rec else [0.0] * dims[aid]) for i, aid in enumerate(ag.agent_ids)}
     resolved = dict(case, noise={aid: [float(x) for x in noise[aid]] for aid in ag.agent_ids}) if tr else case
     if disc is None:
@@ -674,19 +688,20 @@ def run_madisc(case):
 def run_macont(case):
     algo, rows, tr, act = case["algo"], case["rows"], bool(case["training"]), case.get("act", "Tanh")
     bi, bj = case["bounds"]
-    ag = macont_agent(algo, bi, bj, act)
+    raw = bool(case.get("raw"))
+    ag = rawmacont_agent(algo, bi, bj) if raw else macont_agent(algo, bi, bj, act)
     B = len(rows)
     single = bool(case.get("single")) and B == 1
     bnd = {aid: BOUNDS[bj if aid.startswith("other") else bi] for aid in ag.agent_ids}
     for aid, actor in zip(ag.agent_ids, ag.actors):
-        actor.head_net.table = torch.tensor([r[aid]["h"] for r in rows], dtype=torch.float32)
+        (actor if raw else actor.head_net).table = torch.tensor([r[aid]["h"] for r in rows], dtype=torch.float32)
     infos = _ma_infos(ag, rows, single, "action_mask", "env_defined_actions", False)
     obs = sample_obs(ag, algo, B, single, case.get("seed", 0))
     inject = {i: case["noise"][aid] for i, aid in enumerate(ag.agent_ids)} if case.get("noise") else {}
     seed_all(case.get("seed", 0))
     with NoiseTap(ag, inject) as tap:
         cont, disc = ag.get_action(obs, training=tr, infos=infos)
-    problems, tags, impl, ops = [], [f"macont-{algo}"], [], []
+    problems, tags, impl, ops = [], [f"macont-{algo}"] + (["raw-actor"] if raw else []), [], []
     noise = {aid: (list(tap.rec[i]) if i in tap.rec else [0.0] * len(bnd[aid][0])) for i, aid in enumerate(ag.agent_ids)}
     resolved = dict(case, noise={aid: [float(x) for x in noise[aid]] for aid in ag.agent_ids}) if tr else case
     for aid in ag.agent_ids:
@@ -699,7 +714,8 @@ def run_macont(case):
         for b, r in enumerate(rows):
             env = r[aid].get("env") or [None] * d
             impl.append(frs(out[b]))
-            ops.append(f"action macontact {act} {d} 1 {int(tr)} {frs(lo)} {frs(hi)} {frs(r[aid]['h'])} {frs(noise[aid])} "
+            ops.append((f"action macont {d} 1 {int(tr)} " if raw else f"action macontact {act} {d} 1 {int(tr)} ")
+                       + f"{frs(lo)} {frs(hi)} {frs(r[aid]['h'])} {frs(noise[aid])} "
                        + " ".join("_" if e is None else fr(e) for e in env))
             if not legal(ag.action_space[aid], out[b]):
                 problems.append(f"{algo} {aid} env {b}: action {out[b].tolist()} not in Box(low={lo}, high={hi}) "
@@ -722,13 +738,17 @@ def gen_ma_multi(rng: random.Random, tier: str):
             B = 1 if single else rng.randint(2, 4)
             tr = it % 2 == 0
             with_env = rng.random() < 0.5
-            with_mask = rng.random() < 0.8
+            # which agents report a mask: all / none / a random non-empty strict subset (the others send an
+            # empty info dict or one with unrelated keys only)
+            mode = rng.random()
+            names = ["agent_0", "agent_1", "other_0"]
+            masked = set(names) if mode < 0.3 else set() if mode < 0.4 else set(rng.sample(names, rng.choice([1, 2])))
             rows = []
             for _ in range(B):
                 row = {}
                 for aid, A in (("agent_0", A0), ("agent_1", A0), ("other_0", A1)):
                     p = [rng.choice([0.0, 0.125, 0.25, 0.25, 0.5, 1.0]) for _ in range(A)]
-                    m = rng.choice(all_masks(A)[1:]) if with_mask else None
+                    m = rng.choice(all_masks(A)[1:]) if aid in masked else None
                     env = None
                     if with_env and rng.random() < 0.5:
                         allowed = [j for j in range(A) if m is None or m[j]]
@@ -740,7 +760,28 @@ def gen_ma_multi(rng: random.Random, tier: str):
                 noise = {aid: [rng.choice([-0.5, -0.125, 0.0, 0.125, 0.5, 2.0]) for _ in range(A)]
                          for aid, A in (("agent_0", A0), ("agent_1", A0), ("other_0", A1))}
             cases.append({"suite": "madisc", "algo": algo, "A": [A0, A1], "rows": rows, "training": tr,
-                          "single": single, "noise": noise, "seed": rng.randrange(1 << 30)})
+                          "single": single, "noise": noise, "seed": rng.randrange(1 << 30),
+                          "extra_key": rng.random() < 0.5})
+        # partial masks where the masked agents' preferred action is a masked one, evaluation and training mode
+        for tr in (False, True):
+            for who in (["agent_0"], ["agent_1", "other_0"], ["other_0"], ["agent_0", "agent_1"]):
+                single = rng.random() < 0.5
+                rows = []
+                for _ in range(1 if single else 2):
+                    row = {}
+                    for aid, A in (("agent_0", 4), ("agent_1", 4), ("other_0", 3)):
+                        best = rng.randrange(A)
+                        p = [1.0 if j == best else rng.choice([0.0, 0.125, 0.25]) for j in range(A)]
+                        m = None
+                        if aid in who:
+                            m = [0 if j == best else rng.choice([0, 1]) for j in range(A)]
+                            if not any(m):
+                                m[(best + 1) % A] = 1
+                        row[aid] = {"p": p, "m": m, "env": None}
+                    rows.append(row)
+                noise = {"agent_0": [0.0] * 4, "agent_1": [0.0, 0.125, 0.0, -0.125], "other_0": [0.0] * 3} if tr else None
+                cases.append({"suite": "madisc", "algo": algo, "A": [4, 3], "rows": rows, "training": tr, "single": single,
+                              "noise": noise, "seed": rng.randrange(1 << 30), "extra_key": rng.random() < 0.5})
         for it in range(n):
             bi, bj = rng.choice(MA_BOUND_PAIRS) if tier != "quick" else rng.choice([(0, 2), (2, 0)])
             act = "Tanh" if (tier == "quick" or it % 3) else rng.choice(["Sigmoid", "Softsign"])
@@ -771,10 +812,66 @@ def gen_ma_multi(rng: random.Random, tier: str):
                          for aid in ("agent_0", "agent_1", "other_0")}
             cases.append({"suite": "macont", "algo": algo, "bounds": [bi, bj], "act": act, "rows": rows,
                           "training": tr, "single": single, "noise": noise, "seed": rng.randrange(1 << 30)})
+        # actors stubbed as a whole with outputs outside the bounds; training mode, where get_action clamps
+        # (in evaluation mode MADDPG / MATD3 return the actor output as it is — see the note in run())
+        for it in range(3 if tier == "quick" else 20):
+            bi, bj = rng.choice(MA_BOUND_PAIRS)
+            single = rng.random() < 0.35
+            rows = []
+            for _ in range(1 if single else rng.randint(2, 3)):
+                row = {}
+                for aid in ("agent_0", "agent_1", "other_0"):
+                    lo, hi = BOUNDS[bj if aid.startswith("other") else bi]
+                    row[aid] = {"h": [rng.choice([-BIG, lo[j] - 16.0, lo[j] - 0.5, lo[j], (lo[j] + hi[j]) / 2, hi[j],
+                                                  hi[j] + 0.125, hi[j] + 16.0, BIG]) for j in range(len(lo))], "env": None}
+                rows.append(row)
+            noise = {aid: [rng.choice([-0.5, 0.0, 0.125]) for _ in BOUNDS[bj if aid.startswith("other") else bi][0]]
+                     for aid in ("agent_0", "agent_1", "other_0")}
+            cases.append({"suite": "macont", "algo": algo, "bounds": [bi, bj], "act": "None", "raw": True, "rows": rows,
+                          "training": True, "single": single, "noise": noise, "seed": rng.randrange(1 << 30)})
     return cases
 
 
 # ============================================================================= suite cont (DDPG / TD3) and rescale
+def rawcont_agent(algo: str, bi: int):
+    """DDPG / TD3 whose whole actor is a stub: its output is NOT rescaled into the bounds"""
+    def make():
+        a = mk_agent(algo, "vector", box(*BOUNDS[bi]))
+        a.actor = Table()
+        return a
+    return cached((algo, "rawcont", bi), make)
+
+
+def custom_mlp(n_in: int, n_out: int, act):
+    from agilerl.modules.mlp import EvolvableMLP
+    return EvolvableMLP(num_inputs=n_in, num_outputs=n_out, hidden_size=[8], output_activation=act, min_mlp_nodes=8)
+
+
+def custom_agent(algo: str, bi: int, act, bj: int = 0):
+    """real agent built from user-supplied actor / critic networks (public `actor_network(s)=` arguments):
+    the actor is a plain EvolvableMLP, so its output (Tanh: [-1,1]; None: unbounded) is not rescaled onto the Box"""
+    def make():
+        ag = _agents()
+        cls = ag.algo_class(algo)
+        ob = ag.obs_space("vector")
+        ag.seed_all(bi)
+        if algo in ("DDPG", "TD3"):
+            sp = box(*BOUNDS[bi])
+            d = len(BOUNDS[bi][0])
+            kw = {"critic_network": custom_mlp(4 + d, 1, None)} if algo == "DDPG" else \
+                {"critic_networks": [custom_mlp(4 + d, 1, None), custom_mlp(4 + d, 1, None)]}
+            return cls(ob, sp, actor_network=custom_mlp(4, d, act), device="cpu", **kw)
+        sps = [box(*BOUNDS[bi]), box(*BOUNDS[bi]), box(*BOUNDS[bj])]
+        dims = [len(BOUNDS[bi][0]), len(BOUNDS[bi][0]), len(BOUNDS[bj][0])]
+        tot = 3 * 4 + sum(dims)
+        crit = [custom_mlp(tot, 1, None) for _ in dims]
+        kw = {"critic_networks": crit} if algo == "MADDPG" else \
+            {"critic_networks": [crit, [custom_mlp(tot, 1, None) for _ in dims]]}
+        return cls(observation_spaces=[ob] * 3, action_spaces=sps, agent_ids=list(ag.AGENT_IDS),
+                   actor_networks=[custom_mlp(4, d, act) for d in dims], device="cpu", **kw)
+    return cached((algo, "custom", bi, bj, act), make)
+
+
 def cont_agent(algo: str, bi: int, act: str, ou: bool = False):
     def make():
         ag = _agents()
@@ -789,11 +886,16 @@ def cont_agent(algo: str, bi: int, act: str, ou: bool = False):
 
 def run_cont(case):
     algo, rows, tr, act, bi = case["algo"], case["rows"], bool(case["training"]), case["act"], case["bounds"]
-    ag = cont_agent(algo, bi, act, bool(case.get("ou")))
+    raw = bool(case.get("raw"))
     lo, hi = BOUNDS[bi]
     d, B = len(lo), len(rows)
     single = bool(case.get("single")) and B == 1
-    ag.actor.head_net.table = torch.tensor([r["h"] for r in rows], dtype=torch.float32)
+    if raw:     # the whole actor is stubbed: `h` is the actor's output itself, possibly far outside the bounds
+        ag = rawcont_agent(algo, bi)
+        ag.actor.table = torch.tensor([r["h"] for r in rows], dtype=torch.float32)
+    else:
+        ag = cont_agent(algo, bi, act, bool(case.get("ou")))
+        ag.actor.head_net.table = torch.tensor([r["h"] for r in rows], dtype=torch.float32)
     obs = sample_obs(ag, algo, B, single, case.get("seed", 0))
     inject = {0: case["noise"]} if case.get("noise") is not None else {}
     seed_all(case.get("seed", 0))
@@ -801,7 +903,7 @@ def run_cont(case):
         out = np.asarray(ag.get_action(obs, training=tr))
     noise = list(tap.rec[0]) if 0 in tap.rec else [0.0] * d
     resolved = dict(case, noise=[float(x) for x in noise]) if tr else case
-    problems, tags, impl, ops = [], [f"cont-{algo}", f"act-{act}"], [], []
+    problems, tags, impl, ops = [], [f"cont-{algo}", "raw-actor" if raw else f"act-{act}"], [], []
     if out.shape != (B, d):
         problems.append(f"{algo}: batch of {B} -> action shape {out.shape}, expected {(B, d)}")
         return impl, ops, problems, tags, resolved
@@ -809,7 +911,10 @@ def run_cont(case):
         return impl, ops, problems, ["draws-unobserved"], case
     for b, r in enumerate(rows):
         impl.append(frs(out[b]))
-        ops.append(f"action ddpgact {act} {d} {int(tr)} {frs(lo)} {frs(hi)} {frs(r['h'])} {frs(noise)}")
+        if raw:
+            ops.append(f"action ddpg {d} {int(tr)} {frs(lo)} {frs(hi)} {frs(r['h'])} {frs(noise)}")
+        else:
+            ops.append(f"action ddpgact {act} {d} {int(tr)} {frs(lo)} {frs(hi)} {frs(r['h'])} {frs(noise)}")
         if not legal(ag.action_space, out[b]):
             problems.append(f"{algo} row {b}: action {out[b].tolist()} not in Box(low={lo}, high={hi}) (training={tr})")
     return impl, ops, problems, tags, resolved
@@ -857,6 +962,20 @@ def gen_cont(rng: random.Random, tier: str):
                     cases.append({"suite": "cont", "algo": algo, "act": act, "bounds": bi, "rows": copy.deepcopy(rows),
                                   "training": tr, "noise": noise, "single": single, "ou": bool(it % 5 == 4),
                                   "seed": rng.randrange(1 << 30)})
+    # the whole actor stubbed with outputs outside the bounds (what a user-supplied actor network may return):
+    # only get_action's own clip keeps the action legal, in evaluation mode too
+    for algo in ("DDPG", "TD3"):
+        for it in range(6 if tier == "quick" else 40):
+            bi = rng.randrange(len(BOUNDS))
+            lo, hi = BOUNDS[bi]
+            single = rng.random() < 0.3
+            B = 1 if single else rng.randint(2, 4)
+            rows = [{"h": [rng.choice([-BIG, lo[j] - 16.0, lo[j] - 0.5, lo[j], (lo[j] + hi[j]) / 2, hi[j], hi[j] + 0.125,
+                                       hi[j] + 16.0, BIG]) for j in range(len(lo))]} for _ in range(B)]
+            tr = it % 3 == 2
+            noise = [rng.choice([-0.5, 0.0, 0.125, 16.0]) for _ in lo] if tr else None
+            cases.append({"suite": "cont", "algo": algo, "act": "None", "raw": True, "bounds": bi, "rows": rows,
+                          "training": tr, "noise": noise, "single": single, "seed": rng.randrange(1 << 30)})
     n = 21 if tier == "quick" else 210
     for it in range(n):
         act = (ACTS + [None, "ReLU"])[it % 7]
@@ -971,19 +1090,26 @@ def run_pgmask(case):
     obs = sample_obs(ag, algo, B, single, case.get("seed", 0))
     masks = np.array([r["m"] for r in rows], dtype=np.int64)
     problems, tags, impl, ops = [], [f"pgmask-{algo}-{kind}"], [], []
+    mgroups = list(case.get("mask_groups", ["agent", "other"]))     # IPPO: the groups whose agents report a mask
+    if algo == "IPPO" and len(mgroups) == 1:
+        tags.append("masks-partial")
     seed_all(case.get("seed", 0))
     with MethodTap(EvolvableDistribution, "apply_mask") as tap:
         outs = []
         for rep in range(case.get("samples", 3)):
             if algo == "IPPO":
-                infos = {aid: {"action_mask": (masks[0] if single else masks)} for aid in ag.agent_ids}
+                # IPPO wants all-or-none masks inside a homogeneous group; groups may differ
+                infos = {aid: ({"action_mask": (masks[0] if single else masks)} if aid.rsplit("_", 1)[0] in mgroups else {})
+                         for aid in ag.agent_ids}
                 outs.append(ag.get_action(obs, infos=infos)[0])
             else:
                 outs.append(ag.get_action(obs, action_mask=masks[0] if single else masks)[0])
     if not tap.rec:
         return impl, ops, problems, ["draws-unobserved"], case
     # correspondence: the masked logits of the first call(s)
-    ncalls = 2 if algo == "IPPO" else 1
+    ncalls = len(mgroups) if algo == "IPPO" else 1
+    if len(tap.rec) != ncalls * case.get("samples", 3):
+        return impl, ops, problems, ["draws-unobserved"], case
     for ci in range(ncalls):
         ml = np.asarray(tap.rec[ci][2].detach().cpu().numpy(), dtype=np.float32)
         reps = ml.shape[0] // B
@@ -1001,10 +1127,13 @@ def run_pgmask(case):
             if o.shape[0] != B:
                 problems.append(f"{algo} {aid or ''}: batch of {B} -> action shape {o.shape}")
                 continue
+            has_mask = aid is None or aid.rsplit("_", 1)[0] in mgroups
             for b, r in enumerate(rows):
                 m = r["m"]
                 if not legal(space, o[b]):
                     problems.append(f"{algo} {aid or ''} row {b}: {o[b].tolist()} not in {space}")
+                    continue
+                if not has_mask:
                     continue
                 a = np.asarray(o[b]).reshape(-1).astype(int)
                 if kind == "discrete":
@@ -1054,8 +1183,11 @@ def gen_pg(rng: random.Random, tier: str):
                 else:
                     m = rng.choice(all_masks(W))
                 rows.append({"l": [rng.choice([-BIG, -3.0, 0.0, 0.0, 1.0, 7.0, BIG]) for _ in range(W)], "m": m})
-            cases.append({"suite": "pgmask", "algo": algo, "kind": kind, "n": nn_, "rows": rows, "single": single,
-                          "seed": rng.randrange(1 << 30)})
+            c = {"suite": "pgmask", "algo": algo, "kind": kind, "n": nn_, "rows": rows, "single": single,
+                 "seed": rng.randrange(1 << 30)}
+            if algo == "IPPO":
+                c["mask_groups"] = [["agent", "other"], ["agent"], ["other"]][it % 3 if it >= 3 else 0]
+            cases.append(c)
     # PPO with a squashing actor, evaluation mode (scale_action)
     for it in range(2 if tier == "quick" else 20):
         bi = rng.randrange(len(BOUNDS))
@@ -1293,9 +1425,14 @@ def sweep_one(cfg):
     algo, fam, kind, seed = cfg["algo"], cfg["family"], cfg["kind"], cfg["seed"]
     rng = random.Random(seed)
     key = ("sweep", algo, fam, kind, cfg.get("space_seed", 0))
-    agent = cached(key, lambda: mk_agent(algo, fam, sweep_spaces(algo, kind, random.Random(cfg.get("space_seed", 0))),
-                                         seed=cfg.get("space_seed", 0)))
-    problems, tags = [], [f"sweep-{algo}", f"kind-{kind}", f"obs-{fam}"]
+    if cfg.get("custom"):
+        # user-supplied plain-MLP actor(s): the output (Tanh / unbounded) is not rescaled onto the Box
+        bi, bj = cfg["custom"]["bounds"]
+        agent = custom_agent(algo, bi, cfg["custom"]["act"], bj)
+    else:
+        agent = cached(key, lambda: mk_agent(algo, fam, sweep_spaces(algo, kind, random.Random(cfg.get("space_seed", 0))),
+                                             seed=cfg.get("space_seed", 0)))
+    problems, tags = [], [f"sweep-{algo}", f"kind-{kind}", f"obs-{fam}"] + (["custom-actor"] if cfg.get("custom") else [])
     B = cfg["B"]
     single = cfg["single"]
     if single:
@@ -1356,9 +1493,16 @@ def sweep_one(cfg):
         masks = {}
         if cfg["mask"] and kind != "box" and (algo == "IPPO" or kind == "discrete"):
             infos = {}
+            # all agents, or a random non-empty strict subset, report a mask (IPPO: whole homogeneous groups)
+            units = ["agent", "other"] if algo == "IPPO" else list(agent.agent_ids)
+            chosen = set(units) if rng.random() < 0.4 else set(rng.sample(units, rng.randint(1, len(units) - 1)))
+            tags.append("masks-all" if len(chosen) == len(units) else "masks-partial")
             for aid in agent.agent_ids:
-                masks[aid] = rand_mask(agent.action_space[aid], rng, B, single)
-                infos[aid] = {"action_mask": masks[aid]}
+                if (aid.rsplit("_", 1)[0] if algo == "IPPO" else aid) in chosen:
+                    masks[aid] = rand_mask(agent.action_space[aid], rng, B, single)
+                    infos[aid] = {"action_mask": masks[aid]}
+                else:
+                    infos[aid] = {} if rng.random() < 0.5 else {"step_count": 3}
         envdef = {}
         if cfg.get("env_defined") and kind in ("discrete", "box"):
             infos = infos or {aid: {} for aid in agent.agent_ids}
@@ -1419,6 +1563,16 @@ def gen_sweep(rng: random.Random, tier: str):
                                  "seed": rng.randrange(1 << 30), "B": rng.randint(2, 4), "single": rep % 2 == 1,
                                  "training": rep % 4 < 2, "mask": rng.random() < 0.7, "eps": [0.0, 0.5, 1.0, 1.0][rep % 4],
                                  "env_defined": rng.random() < 0.4})
+    # user-supplied actor networks whose raw output range exceeds the (asymmetric, per-dimension) Box.
+    # MADDPG / MATD3 only in training mode: in evaluation mode they return the actor output as it is (note in run()).
+    for algo in ("DDPG", "TD3", "MADDPG", "MATD3"):
+        for rep in range(4 if tier == "quick" else 16):
+            ma = algo in ("MADDPG", "MATD3")
+            bi, bj = rng.choice(MA_BOUND_PAIRS) if ma else (rng.choice([0, 2, 3, 4]), 0)
+            cfgs.append({"suite": "sweep", "algo": algo, "kind": "box", "family": "vector", "space_seed": 0,
+                         "custom": {"bounds": [bi, bj], "act": ["Tanh", None][rep % 2]},
+                         "seed": rng.randrange(1 << 30), "B": rng.randint(2, 4), "single": rng.random() < 0.3,
+                         "training": True if ma else rep % 4 < 2, "mask": False, "eps": 0.0, "env_defined": False})
     return cfgs
 
 
@@ -1470,6 +1624,9 @@ def run(chk: Check) -> None:
         "float32 arithmetic is exact on the dyadic inputs used; recorded Gaussian noise / squashed samples are compared with "
         f"relative tolerance {TOL}",
     ]
+    chk.notes.append("not asserted (reported to the maintainers instead): MADDPG / MATD3 built with user-supplied actor "
+                     "networks return the raw actor output in evaluation mode (no clamp, no rescale), which is outside an "
+                     "asymmetric Box; custom-actor and raw-actor cases for them are therefore run in training mode only")
     torch.set_num_threads(1)
     # 1. corpus
     corpus = []
